@@ -164,7 +164,7 @@ def run_subprocess(argv, stdin_lines, python=None, timeout=60, console_script=Fa
         launcher = ["-c", "import sys; from cvss.cvss_calculator import main; sys.argv[0] = 'cvss_calculator'; sys.exit(main())"]
     try:
         p = subprocess.run([python or sys.executable] + launcher + list(argv),
-                           input=("".join(l + "\n" for l in (stdin_lines or []))).encode("utf-8"),
+                           input=("".join(l + "\n" for l in (stdin_lines or []))).encode("utf-8", "surrogateescape"),    # U+DC80.. = raw bytes
                            stdout=subprocess.PIPE, stderr=subprocess.PIPE, env=env, timeout=timeout, cwd=cwd)
     finally:
         if tmp:
